@@ -14,7 +14,7 @@ ID = 'C10'
 LEVEL = 'exploration'
 WORKERS = {'quick': 6, 'thorough': 14}
 BUDGET_S = {'quick': 60, 'thorough': 400}
-REQUIRED_COUNTERS = ['aes_windows', 'aes_schedules', 'aes_inv_schedules', 'des_schedules', 'des_master_keys', 'history_calls']
+REQUIRED_COUNTERS = ['aes_windows', 'aes_schedules', 'aes_inv_schedules', 'des_schedules', 'des_master_keys', 'history_calls', 'retained_results_rechecked', 'des_master_special_keys']
 RULE = ('AES: every (key size, col_in in [0,total-Nk], col_out in [0,total]) triple x a batch of keys (random + structured: zeros, '
         'FF, walking byte) queried both as a batch and (sub-sampled) as single keys; key_schedule and inv_key_schedule from every '
         'round; DES: key_schedule for every interrupt_after_round on random + walking-one keys (single and batch), get_master_key '
@@ -45,11 +45,14 @@ def cases(tier, seed):
         # each case handles a slice of col_in values, all col_out
         step = 6
         for i in range(0, len(cols), step):
-            out.append(dict(gen='aes_windows', nk=nk, col_ins=cols[i:i + step], sub=core.subseed('C10', seed, k), must=True))
+            out.append(dict(gen='aes_windows', nk=nk, col_ins=cols[i:i + step], pattern=k % 4, sub=core.subseed('C10', seed, k), must=True))
             k += 1
-        out.append(dict(gen='aes_schedule', nk=nk, sub=core.subseed('C10s', seed, nk), must=True))
-    out.append(dict(gen='aes_inv', sub=core.subseed('C10i', seed), must=True))
-    out.append(dict(gen='des_schedule', sub=core.subseed('C10d', seed), must=True))
+        for pat in range(4):
+            out.append(dict(gen='aes_schedule', nk=nk, pattern=pat, sub=core.subseed('C10s', seed, nk + pat), must=True))
+    for pat in range(4):
+        out.append(dict(gen='aes_inv', pattern=pat, sub=core.subseed('C10i', seed, pat), must=True))
+        out.append(dict(gen='des_schedule', pattern=pat, sub=core.subseed('C10d', seed, pat), must=True))
+    out.append(dict(gen='des_master_special', sub=core.subseed('C10ms', seed), must=True))
     nkeys = 2 if tier == 'quick' else 40
     for j in range(nkeys):
         for r0 in range(0, 16, 4):
@@ -62,10 +65,12 @@ def cases(tier, seed):
             nk = int(rs.choice([16, 24, 32]))
             cols = list(range(0, TOTAL[nk] - nk // 4 + 1))
             i = int(rs.integers(len(cols)))
-            out.append(dict(gen='aes_windows', nk=nk, col_ins=cols[i:i + 3], sub=int(rs.integers(2 ** 62))))
+            out.append(dict(gen='aes_windows', nk=nk, col_ins=cols[i:i + 3], pattern=j % 4, sub=int(rs.integers(2 ** 62))))
         for j in range(40):
-            out.append(dict(gen='des_schedule', sub=int(rs.integers(2 ** 62))))
-            out.append(dict(gen='aes_inv', sub=int(rs.integers(2 ** 62))))
+            out.append(dict(gen='des_schedule', pattern=j % 4, sub=int(rs.integers(2 ** 62))))
+            out.append(dict(gen='aes_inv', pattern=j % 4, sub=int(rs.integers(2 ** 62))))
+        for j in range(10):
+            out.append(dict(gen='des_master_special', sub=int(rs.integers(2 ** 62))))
     return out
 
 
@@ -73,6 +78,19 @@ def _ro(a):
     v = np.asarray(a).view()          # read-only view keeping the memory layout
     v.setflags(write=False)
     return v
+
+
+def _arrange(keys, pattern, rng):
+    """Batches with structure between their rows: 0 as generated; 1 palindrome (first row == last row, the middle differs);
+    2 all rows equal; 3 runs of equal rows in shuffled order."""
+    if pattern == 1:
+        return keys + keys[-2::-1]
+    if pattern == 2:
+        return [keys[0]] * 5
+    if pattern == 3:
+        k2 = [k for k in keys for _ in range(2)]
+        return k2 if rng.random() < 0.5 else [k2[i] for i in rng.permutation(len(k2))]
+    return keys
 
 
 def _aes_keys(nk, rng, n_random=3):
@@ -94,7 +112,8 @@ def run_case(case):
     if g == 'aes_windows':
         nk = case['nk']
         ncols, total = nk // 4, TOTAL[nk]
-        keys = _aes_keys(nk, rng)
+        keys = _arrange(_aes_keys(nk, rng), case.get('pattern', 0), rng)
+        t.count('key_batch_pattern:%d' % case.get('pattern', 0))
         flat = [sum(A.expand(k), []) for k in keys]            # 4*total bytes each
         dt = ['uint8', 'int32', 'uint16', 'int64'][int(rng.integers(4))]
         for col_in in case['col_ins']:
@@ -127,7 +146,7 @@ def run_case(case):
         return t.result(sig=f"aesw|{nk}|{case['col_ins']}|{case['sub']}", sample=dict(case=case, comparisons=t.checks))
     if g == 'aes_schedule':
         nk = case['nk']
-        keys = _aes_keys(nk, rng, 6)
+        keys = _arrange(_aes_keys(nk, rng, 6), case.get('pattern', 0), rng)
         exp = np.array([A.expand(k) for k in keys], dtype='uint8')
         got = scared.aes.key_schedule(_ro(_gen.layout_nd(rng, np.array(keys, dtype='uint8'))))
         t.count('aes_schedules', len(keys))
@@ -140,7 +159,7 @@ def run_case(case):
             t.count(c, 0)
         return t.result(sig=f"aess|{nk}|{case['sub']}", sample=dict(case=case, comparisons=t.checks))
     if g == 'aes_inv':
-        keys = _aes_keys(16, rng, 4)
+        keys = _arrange(_aes_keys(16, rng, 4), case.get('pattern', 0), rng)
         sched = np.array([A.expand(k) for k in keys], dtype='uint8')
         for r in range(11):
             got = scared.aes.inv_key_schedule(_ro(_gen.layout_nd(rng, sched[:, r].copy())), round_in=r)
@@ -161,6 +180,7 @@ def run_case(case):
             kk = [0] * 8
             kk[i // 8] = 0x80 >> (i % 8)
             keys.append(kk)
+        keys = _arrange(keys, case.get('pattern', 0), rng)
         exp = np.array([D.round_keys(k) for k in keys], dtype='uint8')
         dt = ['uint8', 'int16', 'int64'][int(rng.integers(3))]
         arr = _ro(_gen.layout_nd(rng, np.array(keys, dtype=dt)))
@@ -190,11 +210,33 @@ def run_case(case):
         for c in REQUIRED_COUNTERS:
             t.count(c, 0)
         return t.result(sig=f"desm|{case['sub']}|{case['rounds']}", sample=dict(case=case, comparisons=t.checks))
+    if g == 'des_master_special':
+        # keys whose effective bits are special: all zero (with either parity), all one, the weak and semi-weak keys, one effective bit
+        specials = [[0] * 8, [1] * 8, [0xFE] * 8, [0xFF] * 8, [0, 1] * 4, [0x1F, 0x1F, 0x1F, 0x1F, 0x0E, 0x0E, 0x0E, 0x0E], [0xE0, 0xE0, 0xE0, 0xE0, 0xF1, 0xF1, 0xF1, 0xF1],
+                    [0x01, 0xFE] * 4, [0x1F, 0xE0, 0x1F, 0xE0, 0x0E, 0xF1, 0x0E, 0xF1], [int(v) for v in rng.integers(0, 2, 8)]]
+        for i in (int(rng.integers(64)), int(rng.integers(64))):
+            kk = [0] * 8
+            kk[i // 8] = 0x80 >> (i % 8)
+            specials.append(kk)
+        for key in specials:
+            pt = rng.integers(0, 256, 8).tolist()
+            ct = D.crypt(pt, key)
+            rks = D.round_keys(key)
+            for r in sorted({0, 15, int(rng.integers(16)), int(rng.integers(16))}):
+                got = scared.des.get_master_key(_ro(np.array(rks[r], dtype='uint8')), r, _ro(np.array(pt, dtype='uint8')), _ro(np.array(ct, dtype='uint8')))
+                t.count('des_master_keys')
+                t.count('des_master_special_keys')
+                ok = got is not None and [int(v) & 0xFE for v in np.asarray(got).tolist()] == [v & 0xFE for v in key]
+                t.check(ok, 'des_get_master_key', lambda: dict(round=r, key=key, special=True, got=None if got is None else np.asarray(got).tolist()))
+        for c in REQUIRED_COUNTERS:
+            t.count(c, 0)
+        return t.result(sig=f"desms|{case['sub']}", sample=dict(case=case, comparisons=t.checks))
     if g == 'history':
         # random call sequences on shared key buffers rewritten in place: a result must not depend on earlier calls
         kb = {nk: np.zeros(nk, dtype='uint8') for nk in (16, 24, 32)}
         dk, dkb = np.zeros(8, dtype='uint8'), np.zeros((3, 8), dtype='uint8')
         log = []
+        kept = []                              # (call, op, the object returned, a private copy of its content when it was returned)
         for c in range(case['calls']):
             op = ['aes_sched', 'aes_exp', 'des_sched', 'des_sched', 'des_sched_batch', 'aes_inv'][int(rng.integers(6))]
             if op in ('aes_sched', 'aes_exp'):
@@ -203,14 +245,16 @@ def run_case(case):
                     kb[nk][...] = rng.integers(0, 256, nk)
                 full = sum(A.expand(kb[nk].tolist()), [])
                 if op == 'aes_sched':
-                    got = np.asarray(scared.aes.key_schedule(kb[nk])).reshape(-1).tolist()
+                    raw = scared.aes.key_schedule(kb[nk])
+                    got = np.asarray(raw).reshape(-1).tolist()
                     exp = full
                 else:
                     ncols, total = nk // 4, TOTAL[nk]
                     ci = int(rng.integers(0, total - ncols + 1))
                     co = int(rng.integers(0, total + 1))
                     win = np.array(full[4 * ci: 4 * (ci + ncols)], dtype='uint8')
-                    got = np.asarray(scared.aes.key_expansion(win, col_in=ci, col_out=co)).reshape(-1).tolist()
+                    raw = scared.aes.key_expansion(win, col_in=ci, col_out=co)
+                    got = np.asarray(raw).reshape(-1).tolist()
                     lo, hi = (ci, co) if ci < co else (co, ci + ncols)
                     exp = full[4 * lo: 4 * hi]
                     op = f'aes_exp({nk},{ci},{co})'
@@ -219,14 +263,15 @@ def run_case(case):
                     kb[16][...] = rng.integers(0, 256, 16)
                 sched = A.expand(kb[16].tolist())
                 r = int(rng.integers(0, 11))
-                got = np.asarray(scared.aes.inv_key_schedule(np.array(sched[r], dtype='uint8'), round_in=r)).reshape(-1).tolist()
+                raw = scared.aes.inv_key_schedule(np.array(sched[r], dtype='uint8'), round_in=r)
+                got = np.asarray(raw).reshape(-1).tolist()
                 exp = sum(sched, [])
                 op = f'aes_inv({r})'
             elif op == 'des_sched':
                 if rng.random() < 0.35:
                     dk[...] = rng.integers(0, 256, 8)
                 r = int(rng.integers(0, 16))
-                got = np.asarray(scared.des.key_schedule(dk, interrupt_after_round=r)) if rng.random() < 0.8 or r != 15 else np.asarray(scared.des.key_schedule(dk))
+                raw = got = np.asarray(scared.des.key_schedule(dk, interrupt_after_round=r)) if rng.random() < 0.8 or r != 15 else np.asarray(scared.des.key_schedule(dk))
                 exp = np.array(D.round_keys(dk.tolist())[:r + 1], dtype='uint8')
                 op = f'des_sched({r})'
                 got, exp = (got.tolist() if got.shape == exp.shape else ('shape', got.shape)), exp.tolist()
@@ -234,13 +279,19 @@ def run_case(case):
                 if rng.random() < 0.35:
                     dkb[...] = rng.integers(0, 256, (3, 8))
                 r = int(rng.integers(0, 16))
-                got = np.asarray(scared.des.key_schedule(dkb, interrupt_after_round=r))
+                raw = got = np.asarray(scared.des.key_schedule(dkb, interrupt_after_round=r))
                 exp = np.array([D.round_keys(k)[:r + 1] for k in dkb.tolist()], dtype='uint8')
                 op = f'des_sched_batch({r})'
                 got, exp = (got.tolist() if got.shape == exp.shape else ('shape', got.shape)), exp.tolist()
             log.append(op)
             t.count('history_calls')
             t.check(got == exp, 'result_depends_on_earlier_calls', lambda: dict(case=case, call=c, history=log[-6:]))
+            if isinstance(raw, np.ndarray):
+                kept.append((c, op, raw, raw.copy()))
+                kept = kept[-8:]
+            for c0, op0, obj, snap in kept:
+                t.count('retained_results_rechecked')
+                t.check(np.array_equal(obj, snap), 'retained_result_changed_by_a_later_call', lambda: dict(case=case, returned_by_call=c0, op=op0, changed_after_call=c, history=log[-6:]))
         for c in REQUIRED_COUNTERS:
             t.count(c, 0)
         return t.result(sig=f"hist|{case['sub']}", sample=dict(case=case, last_calls=log[-6:]))
